@@ -144,7 +144,7 @@ def ob_tat(gridname, op, tk, rk, which):
     combos = list(itertools.product(range(len(tv)), range(len(rv))))
     if which == "diag":
         combos = [(i, (i * 2 + 1) % len(rv)) for i in range(len(tv))]
-    worst = 0.0
+    worst, done = 0.0, 0
     for i, j in combos:
         try:
             err, shape = tat_error(gridname, op, tk, rk, tv[i], rv[j])
@@ -153,12 +153,87 @@ def ob_tat(gridname, op, tk, rk, which):
                 continue
             raise
         worst = max(worst, err)
+        done += 1
         if err > 1e-11:
             return violated("%s on %s with test %s%d %s / trial %s%d %s differs from T'AT by %.2e" % (op, gridname, tk[0], tk[1], tv[i], rk[0], rk[1], rv[j], err),
                             witness={"grid": gridname, "op": op, "test": [list(tk), tv[i]], "trial": [list(rk), rv[j]]},
                             replay={"callable": "checks.c04:replay_tat", "kwargs": {"gridname": gridname, "op": op, "tk": list(tk), "rk": list(rk), "tkw": tv[i], "rkw": rv[j]},
                                     "confirmed": True}, signature="tat/%s/%s%d/%s%d" % (op, tk[0], tk[1], rk[0], rk[1]))
-    return held("%d option combinations, worst %.1e" % (len(combos), worst))
+    if done < max(1, len(combos) // 2):
+        return undecided("only %d of %d option combinations could be assembled (vacuity guard)" % (done, len(combos)))
+    return held("%d option combinations (%d assembled), worst %.1e" % (len(combos), done, worst))
+
+
+def contact_pairs(gridname):
+    """one (test element, trial element) pair per contact class: identical, common edge, common vertex only, disjoint (where the grid has one)."""
+    grid = Z.grid_with_domains(gridname)
+    el = grid.elements
+    out = {}
+    for a in range(grid.number_of_elements):
+        for b in range(grid.number_of_elements):
+            k = len(set(el[:, a].tolist()) & set(el[:, b].tolist()))
+            out.setdefault(k, []).append((a, b))
+    return out
+
+
+def ob_contact(gridname, op, tk, rk, which):
+    """bounded: for test functions on one element and trial functions on another -- every pair of elements of the grid, i.e. identical,
+    sharing an edge, sharing only a vertex, and disjoint supports -- A(S_test, S_trial) == T_test' A(full) T_trial."""
+    import bempp_cl.api as api
+
+    warnings.simplefilter("ignore")
+    grid = Z.grid_with_domains(gridname)
+    par = Z.params(2, 2)
+    Ft, Fr = full_space(grid, tk[0], tk[1], {}), full_space(grid, rk[0], rk[1], {})
+    Af = Z.dense(Z.boundary_operator(op, Fr, Fr, Ft, par))
+    scale = np.abs(Af).max()
+    classes = contact_pairs(gridname)
+    worst, n = 0.0, 0
+
+    def space(k, e):
+        kw = {"support_elements": e} if k[0] == "DP" else {"support_elements": e, "include_boundary_dofs": True}
+        return api.function_space(grid, k[0], k[1], **kw)
+
+    for ncommon, pairs in sorted(classes.items()):
+        if which != "all":
+            pairs = pairs[:: max(1, len(pairs) // 3)][:3]
+        for a, b in pairs:
+            for sa, sb in (([a], [b]),) + ((([a, (a + 1) % grid.number_of_elements], [b]),) if ncommon == 1 and which == "all" else ()):
+                St, Sr = space(tk, sa), space(rk, sb)
+                A = Z.dense(Z.boundary_operator(op, Sr, Sr, St, par))
+                ref = St.map_to_full_grid.toarray().T @ Af @ Sr.map_to_full_grid.toarray()
+                err = float(np.abs(A - ref).max() / scale)
+                worst = max(worst, err)
+                n += 1
+                if not err < 1e-11:
+                    return violated("%s on %s, test %s%d on elements %s, trial %s%d on elements %s (%d common vertices): differs from the block "
+                                    "T'AT of the full operator by %.2e (relative to max|A|)" % (op, gridname, tk[0], tk[1], sa, rk[0], rk[1], sb, ncommon, err),
+                                    witness={"grid": gridname, "op": op, "test_elements": sa, "trial_elements": sb, "common_vertices": ncommon},
+                                    replay={"callable": "checks.c04:replay_contact", "confirmed": True,
+                                            "kwargs": {"gridname": gridname, "op": op, "tk": list(tk), "rk": list(rk), "sa": sa, "sb": sb}},
+                                    signature="contact/%s/%d" % (op, ncommon))
+    return held("%d element-pair supports in contact classes %s, worst %.1e" % (n, sorted(classes), worst))
+
+
+def replay_contact(gridname, op, tk, rk, sa, sb):
+    import bempp_cl.api as api
+
+    warnings.simplefilter("ignore")
+    grid = Z.grid_with_domains(gridname)
+    par = Z.params(2, 2)
+    tk, rk = tuple(tk), tuple(rk)
+
+    def space(k, e):
+        kw = {"support_elements": e} if k[0] == "DP" else {"support_elements": e, "include_boundary_dofs": True}
+        return api.function_space(grid, k[0], k[1], **kw)
+
+    Ft, Fr = full_space(grid, tk[0], tk[1], {}), full_space(grid, rk[0], rk[1], {})
+    Af = Z.dense(Z.boundary_operator(op, Fr, Fr, Ft, par))
+    St, Sr = space(tk, sa), space(rk, sb)
+    A = Z.dense(Z.boundary_operator(op, Sr, Sr, St, par))
+    ref = St.map_to_full_grid.toarray().T @ Af @ Sr.map_to_full_grid.toarray()
+    err = float(np.abs(A - ref).max() / np.abs(Af).max())
+    return {"violates": bool(not err < 1e-11), "relative_error": err, "shape": list(A.shape)}
 
 
 def replay_tat(gridname, op, tk, rk, tkw, rkw):
@@ -245,12 +320,26 @@ def main():
     for op, tk, rk in CASES:
         for g in (("screen2", "octa") if thorough else ("screen2",)):
             run.add("T'AT.%s[%s %s%d x %s%d]" % (op, g, tk[0], tk[1], rk[0], rk[1]), "bounded", ob_tat, g, op, tk, rk, "all" if thorough else "diag")
+    for op, tk, rk in (CASES if thorough else [CASES[0], CASES[4], CASES[5], CASES[11]]):
+        for g in (("octa", "screen2") if thorough else ("octa",)):
+            run.add("T'AT.contact.%s[%s %s%d x %s%d]" % (op, g, tk[0], tk[1], rk[0], rk[1]), "bounded", ob_contact, g, op, tk, rk, "all" if thorough else "some")
+    for mesh in ("octa", "screen2"):
+        cl = contact_pairs(mesh)
+        for ncommon in sorted(cl):
+            a, b = cl[ncommon][len(cl[ncommon]) // 2]
+            if ncommon == 3 or (not thorough and (mesh, ncommon) not in (("octa", 1), ("screen2", 0), ("octa", 2))):
+                continue
+            for tsp, rsp in ((("DP", 0, {"support_elements": [a]}), ("DP", 1, {"support_elements": [b]})),
+                             (("P", 1, {"support_elements": [a], "include_boundary_dofs": True}), ("DP", 0, {"support_elements": [b]}))):
+                run.add("pipeline.T'AT.contact%d[%s %s%d on [%d] x %s%d on [%d]]" % (ncommon, mesh, tsp[0], tsp[1], a, rsp[0], rsp[1], b), "post",
+                        PL.ob_pipeline, mesh, tsp, rsp, di[mesh])
     run.add("nesting.laplace_single.DP0", "bounded", ob_nesting, "laplace_single", "DP0")
     if thorough:
         run.add("nesting.laplace_single.P1", "bounded", ob_nesting, "laplace_single", "P1")
         run.add("nesting.laplace_hyp.P1", "bounded", ob_nesting, "laplace_hyp", "P1")
     run.bound("pipeline T'AT contract: 2x2 screen (thorough: + octahedron) with 3 domain indices, generic values")
     run.bound("float T'AT: zoo grids x 13 operator/space-kind cases x option combinations (quick: one trial option per test option; thorough: all pairs)")
+    run.bound("contact classes: test and trial functions on single elements (and an element pair) of the octahedron / 2x2 screen, all element pairs in thorough")
     run.bound("nesting: tetrahedron refined once, orders (3,3) and (6,6); barycentric refinement nesting is not exercised")
     run.assume("accumulation order differs between spaces: equality is 'to rounding' (1e-11 relative in the float check, exact in the symbolic one)")
     run.assume("scipy coo_matrix/tocsr build the matrix from the (row, col, value) triples with duplicate summation")
